@@ -364,7 +364,7 @@ fn run_one(h: &History, st: &mut Stats, class: &str, hook: bool) -> Result<(), F
 
 pub fn run(ctx: &mut Ctx) {
     let thorough = ctx.tier == Tier::Thorough;
-    ctx.rule = "table part (exhaustive): 9 regions x every uplink data rate x every RX1 offset 0..7 (negotiated by JoinAccept DLSettings on OTAA and by RXParamSetupReq on ABP; offsets above the regional maximum are rejected and then irrelevant) x RX2 data-rate/frequency overrides x RxDelay 0..15 x board timings {0,10,50,200 ms} x nb/async/async+ClassC, each followed by uplinks whose windows are judged; in every reached state the hook enumerates the channel selector for all first-draw values 0..71 (join and data frames), so all 72 fixed-plan channels and every dynamic channel incl. DlChannelReq mappings are covered; plus proptest random histories. Oracle: refregion RX1 table / RX2 defaults / downlink frequency pairing, timing arithmetic. Non-trivial: offset != 0 or non-default RX2/delay/DL mapping or fixed-plan join on a 500 kHz channel".into();
+    ctx.rule = "table part (exhaustive): 9 regions x every uplink data rate x every RX1 offset 0..7 (negotiated by JoinAccept DLSettings on OTAA and by RXParamSetupReq on ABP; offsets above the regional maximum are rejected and then irrelevant) x RX2 data-rate/frequency overrides x RxDelay 0..15 x board timings {0,10,50,200 ms} and nb receive-window durations {100..300, 999, 1000, 1001, 1500, 2500 ms} x nb/async/async+ClassC, each followed by uplinks whose windows are judged; in every reached state the hook enumerates the channel selector for all first-draw values 0..71 (join and data frames), so all 72 fixed-plan channels and every dynamic channel incl. DlChannelReq mappings are covered; plus proptest random histories. Oracle: refregion RX1 table / RX2 defaults / downlink frequency pairing, timing arithmetic. Non-trivial: offset != 0 or non-default RX2/delay/DL mapping or fixed-plan join on a 500 kHz channel".into();
     ctx.exhaustive = true;
     ctx.assumptions = vec![
         "parameters in force = the network's view: RX1 offset, RX2 overrides and RX1 delay start from the device snapshot at the first data uplink after activation/join (C11 judges the join) and from then on change only through RXParamSetupReq/RXTimingSetupReq that the device acknowledged completely (tracked from its answers with the reference codec); downlink-frequency pairings likewise from acknowledged DlChannelReq/NewChannelReq; after a radio fault, a frame whose size verdict is undefined, or MAC commands accepted outside RX1/RX2 the view is re-read from the device snapshot (or no longer followed)".into(),
@@ -426,7 +426,7 @@ pub fn run(ctx: &mut Ctx) {
                         steps.push(Step::Join(RxPlan::default()));
                         let h = History { cfg: DevCfg { region: *region, join_bias: if reg.fixed() && rng.bool() { Some((1 + rng.below(8) as u8, 1 + rng.below(3) as usize)) } else { None }, front: *front, board: (14, 0) },
                             activation: if *otaa { Activation::Otaa } else { Activation::Abp { fcnt_up: 0, fcnt_down: None } },
-                            board: Board { tx_ms: [0, 3, 1500][(off as usize) % 3], lead_ms: timing, buffer_ms: timing / 2, nb_offset_ms: [0i32, -10, 25, -200][(delay as usize) % 4], nb_duration_ms: 100 + timing, nb_async_tx: rng.bool(), snr: 0 },
+                            board: Board { tx_ms: [0, 3, 1500][(off as usize) % 3], lead_ms: timing, buffer_ms: timing / 2, nb_offset_ms: [0i32, -10, 25, -200][(delay as usize) % 4], nb_duration_ms: [100 + timing, 100 + timing, 999, 1000, 1001, 1500, 2500][(off as usize * 16 + delay as usize) % 7], nb_async_tx: rng.bool(), snr: 0 },
                             rng_script: vec![rng.next_u32(), rng.next_u32()], rng_seed: rng.next_u64(), steps };
                         // the hook enumeration on the state before the final re-join: run on a prefix
                         let mut hp = h.clone();
@@ -452,6 +452,7 @@ pub fn run(ctx: &mut Ctx) {
             h.board.buffer_ms = h.board.lead_ms / 2;
             h.board.nb_offset_ms = o * 15;
             h.board.tx_ms = t * 7;
+            h.board.nb_duration_ms = [100, 150, 999, 1000, 1001, 3000][(h.rng_seed % 6) as usize];
             h
         });
         let f = run_proptest(strat, cases / nthreads + 1, seed ^ 0xC10B ^ ((ti as u64) << 36), st, |h, st| run_one(h, st, "random-history", st.evaluations % 7 == 0));
